@@ -6,7 +6,7 @@ ids="$@"; [ -z "$ids" ] && ids="C01 C02 C03 C04 C05 C06 C07 C08 C09 C10 C11 C12 
 log=work/run_all.$tier.log; : > $log
 for id in $ids; do
   t0=$(date +%s)
-  timeout 28000 ./check $id --tier $tier > work/run_all.$id.$tier.out 2>&1; rc=$?
+  timeout ${CHECK_TIMEOUT:-28000} ./check $id --tier $tier > work/run_all.$id.$tier.out 2>&1; rc=$?
   t1=$(date +%s)
   echo "$id exit=$rc wall=$((t1-t0))s $(grep -E "^$id $tier" work/run_all.$id.$tier.out | tail -1)" | tee -a $log
   grep -E "^VIOLATION|^KNOWN-FINDING|ENGINE ERROR" work/run_all.$id.$tier.out | cut -c1-300 >> $log
